@@ -1,9 +1,12 @@
 (* C05 run function: the six unmarshaling entry points on one JSON tree. *)
 From JV Require Import Model.Base Model.GoTime Gen.TypeGo Model.Schema Model.Value
   Model.Strconv Model.Json Model.Attr Model.SoftRes Model.Wrapper Model.Resource
-  Model.Marshal Model.Unmarshal Model.Document Model.C17 Model.C01 Model.C02.
+  Model.Marshal Model.Unmarshal Model.Document Model.Url Model.Request Model.C17 Model.C01 Model.C02.
 
 Definition obs_ident (i : identifier) : obs := OL [OS (i_id i); OS (i_type i)].
+
+Definition obs_request (r : res request) : obs :=
+  obs_fail (fun q => OC "request" [OB (match rq_doc q with Some _ => true | None => false end)]) r.
 
 Definition run_c05 (e : stdenv) (s : sch) (j : json) : obs :=
   OL [obs_fail (fun u => obs_udoc (mkUDoc (u_data u) (map (fun x => mkErr (e_id x) (e_code x) (e_status x) (e_title x) (e_detail x) (e_links x) [] []) (u_errors u)) (u_included u) [])) (unmarshal_document e s j);
@@ -13,4 +16,7 @@ Definition run_c05 (e : stdenv) (s : sch) (j : json) : obs :=
                (unmarshal_partial e s j);
       obs_fail (fun l => OL (map obs_full_resource l)) (unmarshal_collection e s j);
       obs_fail obs_ident (unmarshal_identifier s j);
-      obs_fail (fun l => OL (map obs_ident l)) (unmarshal_identifiers s j)].
+      obs_fail (fun l => OL (map obs_ident l)) (unmarshal_identifiers s j);
+      obs_request (new_request e s "POST" "/alltypes" [] FOErr (Some j));
+      obs_request (new_request e s "PATCH" "/alltypes" [] FOErr (Some j));
+      obs_request (new_request e s "GET" "/alltypes" [] FOErr (Some j))].
